@@ -247,6 +247,28 @@ def run(tier):
             V.disagree("acv %s output differs from the library's" % row["op"],
                        {"input": {k: row[k][:2000] for k in ("op", "profile", "data")}, "exit": pr.returncode,
                         "stdout_head": pr.stdout[:300].decode(errors="replace"), "library_head": ref["out"][:300]})
+    # texts whose class nobody is asked to know: whatever the library makes of them (a report or an error), the tool makes
+    # the same of them -- a byte order mark, a second JSON value, a bare scalar, CR LF line ends, a very large document
+    edge = {"bom": "\ufeff" + c09.DOCS["fail3"], "second-value": c09.DOCS["fail3"] + "\n{}\n", "scalar": '"just a string"',
+            "crlf": json.dumps(json.loads(c09.DOCS["fail3"]), indent=2).replace("\n", "\r\n"),
+            "big": json.dumps([corpus.node(i, q="toolong") for i in range(1, 4)])[:-1] + " " * (17 * 1024 * 1024) + "]",
+            "bom-profile": c09.DOCS["fail3"]}
+    erows = [{"id": "edge-" + k, "op": "validate", "profile": ("\ufeff" if k == "bom-profile" else "") + corpus.OK_PROFILE, "data": d}
+             for k, d in sorted(edge.items())]
+    elib = {r["id"]: r for r in vlib.run_harness("libout", erows, "c18_edge", shards=len(erows))}
+    for row in erows:
+        pf_, df_ = os.path.join(root, row["id"] + ".yaml"), os.path.join(root, row["id"] + ".jsonld")
+        open(pf_, "w").write(row["profile"])
+        open(df_, "w").write(row["data"])
+        pr = subprocess.run([acv, "validate", pf_, df_], capture_output=True, timeout=300)
+        other += 1
+        ref = elib[row["id"]]
+        if ref.get("err"):
+            if pr.returncode == 0 or looks_like_report(pr.stdout):
+                V.disagree("acv validate prints a report / exits 0 for input the library rejects (%s)" % row["id"], {"library_error": ref["err"][:300]})
+        elif pr.returncode != 0 or mask(pr.stdout) not in (mask(ref["out"].encode()), mask(ref["out"].encode()) + b"\n"):
+            V.disagree("acv validate differs from the library on input the library accepts (%s)" % row["id"],
+                       {"exit": pr.returncode, "stdout_head": pr.stdout[:300].decode(errors="replace"), "stderr_tail": pr.stderr[-300:].decode(errors="replace")})
     pf, df = files[2]
     pr = subprocess.run([acv, "validate", pf, df, os.path.join(root, "no-such-dir", "out.json")], capture_output=True, timeout=120)
     other += 1
